@@ -612,4 +612,122 @@ theorem unfold_eq {env : List SDecl} {st : St} (hi : Inv env [] st) : ∀ (n : N
         simp only [rho, hd, hf, Option.getD_some, g, u', e.1, e.2]
         rw [unfold_eq hi n d.under cu]
 
+/-! ## methods and the package loop -/
+
+theorem setMethods_get_ne : ∀ (l : List FDecl) {i j : Nat} (ms : List (String × CTy)), i ≠ j → (setMethods l i ms)[j]? = l[j]?
+  | [], _, _, _, _ => rfl
+  | _ :: _, 0, 0, _, h => absurd rfl h
+  | _ :: _, 0, j + 1, _, _ => by simp [setMethods]
+  | _ :: _, i + 1, 0, _, _ => by simp [setMethods]
+  | _ :: l, i + 1, j + 1, ms, h => by
+      simp only [setMethods, List.getElem?_cons_succ]
+      exact setMethods_get_ne l ms (by omega)
+
+theorem setMethods_get_eq : ∀ (l : List FDecl) {i : Nat} {d : FDecl} (ms : List (String × CTy)), l[i]? = some d →
+    (setMethods l i ms)[i]? = some { d with methods := ms }
+  | [], _, _, _, h => by simp at h
+  | x :: _, 0, d, ms, h => by simp at h; subst h; simp [setMethods]
+  | _ :: l, i + 1, d, ms, h => by
+      simp only [List.getElem?_cons_succ] at h
+      simp only [setMethods, List.getElem?_cons_succ]
+      exact setMethods_get_eq l ms h
+
+/-- `AddMethod` touches neither names nor underlying types -/
+theorem inv_setMethods {env : List SDecl} {P : List Nat} {st st' : St} (fid : Nat) (ms : List (String × CTy))
+    (hs : st'.scope = st.scope) (hf : st'.fdecls = setMethods st.fdecls fid ms) (h : Inv env P st) : Inv env P st' := by
+  have get : ∀ (v : Nat) (fd : FDecl), st.fdecls[v]? = some fd → ∃ fd' : FDecl, st'.fdecls[v]? = some fd' ∧ fd'.pkg = fd.pkg ∧ fd'.name = fd.name ∧ fd'.under = fd.under := by
+    intro v fd g
+    rw [hf]
+    by_cases e : v = fid
+    · subst e; exact ⟨_, setMethods_get_eq _ ms g, rfl, rfl, rfl⟩
+    · exact ⟨fd, by rw [setMethods_get_ne _ ms (Ne.symm e)]; exact g, rfl, rfl, rfl⟩
+  refine ⟨?_, ?_, ?_⟩
+  · intro k v hk
+    rw [hs] at hk
+    obtain ⟨fd, g, e⟩ := h.names k v hk
+    obtain ⟨fd', g', e1, e2, _⟩ := get v fd g
+    exact ⟨fd', g', by rw [e1, e2]; exact e⟩
+  · intro k k' v h1 h2; rw [hs] at h1 h2; exact h.inj k k' v h1 h2
+  · intro sid d f hd hl hp
+    rw [hs] at hl
+    obtain ⟨fd, g1, g4, g5⟩ := h.decl sid d f hd hl hp
+    obtain ⟨fd', g', _, _, e3⟩ := get f fd g1
+    exact ⟨fd', g', by rw [e3, rho_scope hs]; exact g4, (closed_le (le_of_scope_eq hs) g5).1⟩
+
+/-- the two lists have the same length and related elements at the same positions -/
+inductive Rel2 {α β : Type} (R : α → β → Prop) : List α → List β → Prop
+  | nil : Rel2 R [] []
+  | cons {a b l l'} : R a b → Rel2 R l l' → Rel2 R (a :: l) (b :: l')
+
+/-- `addmethods`: every signature is converted to its renamed original (in the state after the last one) -/
+theorem convMethods_sound (c : Bool) (env : List SDecl) (hu : NamesUnique env) (fuel : Nat) :
+    ∀ (ms : List (String × CTy)) (st st' : St) (ms' : List (String × CTy)),
+      convMethods c env fuel st ms = some (st', ms') → CacheOK env st → Inv env [] st →
+      Le st st' ∧ CacheOK env st' ∧ Inv env [] st' ∧
+      Rel2 (fun m m' => m'.1 = m.1 ∧ Closed env st' m.2 ∧ m'.2 = rename (rho env st') m.2) ms ms'
+  | [], st, st', ms', h, hc, hi => by
+      simp only [convMethods, Option.some.injEq, Prod.mk.injEq] at h
+      obtain ⟨rfl, rfl⟩ := h
+      exact ⟨Le.refl _, hc, hi, .nil⟩
+  | (n, sg) :: ms, st, st', ms', h, hc, hi => by
+      simp only [convMethods] at h
+      cases h1 : conv c env fuel st sg with
+      | none => rw [h1] at h; cases h
+      | some r1 =>
+        obtain ⟨st1, s'⟩ := r1
+        rw [h1] at h
+        simp only at h
+        cases h2 : convMethods c env fuel st1 ms with
+        | none => rw [h2] at h; cases h
+        | some r2 =>
+          obtain ⟨st2, ms2⟩ := r2
+          rw [h2] at h
+          simp only [Option.some.injEq, Prod.mk.injEq] at h
+          obtain ⟨rfl, rfl⟩ := h
+          obtain ⟨l1, c1, e1, k1⟩ := conv_sound c env fuel st sg st1 s' h1 hc
+          have i1 := conv_inv c env hu fuel st sg st1 s' [] h1 hc hi
+          obtain ⟨l2, k2, i2, f2⟩ := convMethods_sound c env hu fuel ms st1 st2 ms2 h2 k1 i1
+          obtain ⟨c2, e2⟩ := closed_le l2 c1
+          exact ⟨l1.trans l2, k2, i2, .cons ⟨rfl, c2, by rw [e1, e2]⟩ f2⟩
+
+/-- the drained loop over `toaddmethods` keeps the invariants and leaves nothing pending -/
+theorem drain_sound (c : Bool) (env : List SDecl) (hu : NamesUnique env) (fuel : Nat) :
+    ∀ (n : Nat) (st st' : St), drain c env fuel n st = some st' → CacheOK env st → Inv env [] st →
+      Le st st' ∧ CacheOK env st' ∧ Inv env [] st' ∧ st'.toadd = []
+  | 0, _, _, h, _, _ => by simp [drain] at h
+  | n + 1, st, st', h, hc, hi => by
+      simp only [drain] at h
+      cases ht : st.toadd with
+      | nil =>
+        rw [ht] at h
+        simp only [Option.some.injEq] at h
+        subst h
+        exact ⟨Le.refl _, hc, hi, ht⟩
+      | cons p rest =>
+        obtain ⟨fid, sid⟩ := p
+        rw [ht] at h
+        simp only at h
+        cases hd : env[sid]? with
+        | none => rw [hd] at h; cases h
+        | some d =>
+          rw [hd] at h
+          simp only at h
+          have hc0 : CacheOK env { st with toadd := rest } :=
+            cacheOK_le (st := st) (st' := { st with toadd := rest }) (le_of_scope_eq rfl) hc rfl
+          have hi0 : Inv env [] { st with toadd := rest } := inv_of_eq (st := st) (st' := { st with toadd := rest }) rfl rfl hi
+          cases hm : convMethods c env fuel { st with toadd := rest } d.methods with
+          | none => rw [hm] at h; cases h
+          | some r =>
+            obtain ⟨st1, ms⟩ := r
+            rw [hm] at h
+            simp only at h
+            obtain ⟨l1, k1, i1, _⟩ := convMethods_sound c env hu fuel d.methods _ st1 ms hm hc0 hi0
+            have k2 : CacheOK env { st1 with fdecls := setMethods st1.fdecls fid ms } :=
+              cacheOK_le (st := st1) (st' := { st1 with fdecls := setMethods st1.fdecls fid ms }) (le_of_scope_eq rfl) k1 rfl
+            have i2 : Inv env [] { st1 with fdecls := setMethods st1.fdecls fid ms } :=
+              inv_setMethods (st := st1) (st' := { st1 with fdecls := setMethods st1.fdecls fid ms }) fid ms rfl rfl i1
+            obtain ⟨l3, k3, i3, t3⟩ := drain_sound c env hu fuel n _ st' h k2 i2
+            exact ⟨((le_of_scope_eq (st := st) (st' := { st with toadd := rest }) rfl).trans l1).trans
+              ((le_of_scope_eq (st := st1) (st' := { st1 with fdecls := setMethods st1.fdecls fid ms }) rfl).trans l3), k3, i3, t3⟩
+
 end Converter
